@@ -45,6 +45,13 @@ Definition rmerge_step (acc : list rentry) (x : kv) : list rentry :=
   if is_nil (rvals acc (fst x)) then rset acc (fst x) (snd x) true else acc.
 Definition rmerge (s : list rentry) (ch : list kv) : list rentry := fold_left rmerge_step ch s.
 
+(* parseRequestHeader since df72f46: client headers are merged on the FIRST attempt of an execution
+   only (r.RetryAttempt > 0 => return); a retry attempt sends what the first attempt left in
+   Request.Headers.  unmergeClientSettings resets RetryAttempt to 0 at the start of an execution, so
+   [rexec] below is attempt 0. *)
+Definition rmerge_attempt (attempt : nat) (s : list rentry) (ch : list kv) : list rentry :=
+  match attempt with O => rmerge s ch | S _ => s end.
+
 (* one execution: new state of Request.Headers (= what Client.roundTrip clones for the transport) *)
 Definition rexec (s : list rentry) (ch : list kv) : list rentry := rmerge (unmerge s) ch.
 
